@@ -534,6 +534,12 @@ theorem defaults_batch_pos (c : RawCfg) : 1 ≤ (defaults c).batch := by
   · exact Nat.le_refl 1
   · omega
 
+/-- the configuration `Report` works with does not depend on `reportBlockLag` nor on any of the
+coordinator / observer settings: no lag is subtracted from the median, whatever is configured -/
+theorem defaults_ignores_other_fields (c : RawCfg) (lag lock rounds dur confs : Int) (m : Bool) :
+    defaults { c with reportBlockLag := lag, performLockoutWindow := lock, targetInRounds := rounds,
+                      samplingJobDuration := dur, minConfirmations := confs, mercuryLookup := m } = defaults c := rfl
+
 /-- **report_gas_le.**  For ALL `uint32` gas values, overheads and limits, the real gas of the report,
 Σ (gas + overhead) computed without any bound, is within `GasLimitPerReport`. -/
 theorem report_gas_le (cfg : Cfg) (rs : List Res) :
